@@ -10,7 +10,7 @@ itself, is lexically under the lock (the lock is only ever taken by `with`, so i
 such a block).
 
 `disciplined_sound`: if the check passes then **every access at the end of every call path of every length from every root
-is made with the lock held, or is one of the listed benign accesses.**  This is the hypothesis `acc-without-lock never
+is made with the lock held, or is one of the listed benign accesses (an entry `("*", a)` lists an access that is benign in any function).**  This is the hypothesis `acc-without-lock never
 happens` of the lockset theorems (`FR.Props.C12.welllocked_serial`, `linearization_exists`) established for all paths of the
 current source instead of for the recorded traces only.  Trusted: that the extraction (`tools/gen_locks.py`) lists every
 access and every edge (dynamic dispatch: `self.m`, `<socket>.m` for private and connection-level methods, `super().m`,
@@ -42,14 +42,14 @@ theorem closed_step {t : Table} {X : List String} (h : closed t X = true) {fn : 
   simpa using this
 
 theorem clean_access {b : List (String × String)} {t : Table} {X : List String} (h : clean b t X = true) {fn : Fn} (hfn : fn ∈ t)
-    (hX : fn.name ∈ X) {a : String} {l : Bool} (ha : (a, l) ∈ fn.accesses) : l = true ∨ (fn.name, a) ∈ b := by
+    (hX : fn.name ∈ X) {a : String} {l : Bool} (ha : (a, l) ∈ fn.accesses) : l = true ∨ (fn.name, a) ∈ b ∨ ("*", a) ∈ b := by
   unfold clean at h
   simp only [List.all_eq_true] at h
   have h2 := h fn hfn
   have hX' : X.contains fn.name = true := by simpa using hX
   simp only [hX', Bool.not_true, Bool.false_or, List.all_eq_true] at h2
   have := h2 (a, l) ha
-  simpa using this
+  simpa [or_assoc] using this
 
 /-- along every path from a root: the lock was taken on the way, or the current function is in the closed set -/
 theorem path_invariant {t : Table} {X : List String} (h : closed t X = true) {r g : String} {lk : Bool}
@@ -69,7 +69,7 @@ theorem path_invariant {t : Table} {X : List String} (h : closed t X = true) {r 
 theorem disciplined_sound {b : List (String × String)} {t : Table} (h : disciplined b t = true)
     {r g : String} {lk : Bool} (hr : r ∈ roots t) (p : Path t r g lk)
     {fn : Fn} (hfn : fn ∈ t) (hname : fn.name = g) {a : String} {l : Bool} (ha : (a, l) ∈ fn.accesses) :
-    lk = true ∨ l = true ∨ (g, a) ∈ b := by
+    lk = true ∨ l = true ∨ (g, a) ∈ b ∨ ("*", a) ∈ b := by
   unfold disciplined at h
   simp only [Bool.and_eq_true] at h
   rcases path_invariant h.1 hr p with hl | hX
@@ -82,9 +82,10 @@ theorem bodies_run_under_the_lock {b : List (String × String)} {t : Table} (h :
     (hb : ∀ p ∈ b, p.2 ≠ "body")
     {r g : String} {lk : Bool} (hr : r ∈ roots t) (p : Path t r g lk)
     {fn : Fn} (hfn : fn ∈ t) (hname : fn.name = g) (ha : ("body", false) ∈ fn.accesses) : lk = true := by
-  rcases disciplined_sound h hr p hfn hname ha with h1 | h1 | h1
+  rcases disciplined_sound h hr p hfn hname ha with h1 | h1 | h1 | h1
   · exact h1
   · cases h1
+  · exact absurd rfl (hb _ h1)
   · exact absurd rfl (hb _ h1)
 
 /-! ## non-vacuity and sensitivity on small tables -/
